@@ -15,6 +15,13 @@ THEOREMS = [
     "TornadoModel.C09.cross_origin_of_differs",
     "TornadoModel.C09.follow_decrements",
     "TornadoModel.C09.isSubseq_iff",
+    "TornadoModel.C09.complete_exactly_once",
+    "TornadoModel.C09.completions_nodup",
+    "TornadoModel.C09.admission_conservation",
+    "TornadoModel.C09.active_eq_conns",
+    "TornadoModel.C09.every_fetch_completes_once",
+    "TornadoModel.C09.onceOk_of_perm",
+    "TornadoModel.C09.every_fetch_onceOk",
 ]
 TRUSTED = [
     "urllib.parse (urljoin, urlsplit fields, urlunsplit) and base64: their results are data of each hop",
@@ -37,7 +44,10 @@ EXHAUSTIVE = {"quick": False, "thorough": False}
 CLAUSES = {
     "at most max_clients requests in progress": "active_le_max",
     "queued requests start in submission order": "fifo_start (+ isSubseq_iff: the trace oracle is List.Sublist)",
-    "every fetch completes exactly once": "tie only (oracle on callback counts and futures; conservation invariant left as complete_exactly_once_goal)",
+    "every fetch completes exactly once": "complete_exactly_once + completions_nodup (never twice), admission_conservation + "
+        "active_eq_conns (completed / waiting / active partition the fetched keys at every moment), "
+        "every_fetch_completes_once + every_fetch_onceOk (after the timeouts elapsed the completions are a permutation of "
+        "the fetched keys = the trace oracle Spec.onceOk accepts)",
     "redirects followed at most max_redirects times": "redirect_bounded",
     "303 (non-HEAD) and 301/302 (POST) become bodiless GETs": "post_becomes_get",
     "cross-origin redirect never carries Authorization, Cookie (any multiplicity) or URL credentials":
